@@ -82,6 +82,8 @@ def main(c):
     c.cov["rule"] = (f"every VRP set of at most {maxv} VRPs over a {w}-bit space (2 caches, AS 0-3) x every route (all prefixes x "
                      "origins AS1/AS2/local/AS_SET) x every embedding offset; non-trivial = some route is Valid or Invalid")
     c.sample({"vrps": states[len(states) // 2]["vrps"], "expected": "".join(states[len(states) // 2]["exp"])})
+    import drvlib
+    drvlib.rov_use(c, routes, states, w)
     c.assumptions += ["the W-bit space is embedded at fixed bit offsets of IPv4/IPv6 under a fixed base pattern; the trie code is "
                       "assumed not to depend on the base bits beyond byte alignment",
                       "origin derivation per RFC 6811: AS_SEQUENCE tail -> that AS, AS_SET tail -> NONE (matches nothing), empty "
